@@ -1,3 +1,4 @@
 -- Root of the MypyVerif library: every property file is imported here so `lake build` checks all.
 import MypyVerif.Props.C16
 import MypyVerif.Props.C02
+import MypyVerif.Props.C04
